@@ -189,13 +189,19 @@ where D: DecisionDiagram<State = St> + Default, C: Cache<State = St> + Default +
     out.fuel_out = cut.exhausted.load(SeqCst);
     out
 }
-/// Runs the parallel solver in a helper thread; `None` = maximize() did not return within 10 s (the thread is abandoned)
+/// Runs the parallel solver in a helper thread; `None` = maximize() did not return (twice: 20 s, then 120 s; the threads are abandoned)
 pub fn run_par(m: std::sync::Arc<dyn Model>, spec: &RunSpec, threads: usize) -> Option<Out> {
-    let (tx, rx) = std::sync::mpsc::channel();
-    let spec2 = spec.clone();
-    std::thread::spawn(move || {
-        let out = par_dispatch1!(spec2.cfg, run_par_inner, m.as_ref(), &spec2, threads);
-        let _ = tx.send(out);
-    });
-    rx.recv_timeout(std::time::Duration::from_secs(10)).ok()
+    // A run normally takes well under a millisecond.  A time-out alone is not believed (the machine may be heavily
+    // loaded): the same case -- deterministic with one worker -- is run again with a much longer time-out, and only a
+    // second time-out is a hang.
+    for secs in [20u64, 120] {
+        let (tx, rx) = std::sync::mpsc::channel();
+        let (spec2, m2) = (spec.clone(), m.clone());
+        std::thread::spawn(move || {
+            let out = par_dispatch1!(spec2.cfg, run_par_inner, m2.as_ref(), &spec2, threads);
+            let _ = tx.send(out);
+        });
+        if let Ok(o) = rx.recv_timeout(std::time::Duration::from_secs(secs)) { return Some(o); }
+    }
+    None
 }
